@@ -84,7 +84,9 @@ M("C14", "grad-divisor", "operators.py", "gradient[i] = ((child.costs[0] - indiv
 M("C14", "grad-step", "operators.py", "        self.delta = 1e-4\n", "        self.delta = 1e-3\n")
 M("C14", "grad-index-stuck", "operators.py", "                gradient[i] = ((child.costs[0] - individual.costs[0]) / self.delta)\n                i += 1\n", "                gradient[i] = ((child.costs[0] - individual.costs[0]) / self.delta)\n")
 M("C14", "grad-eval-twice", "operators.py", "        n_params = len(self.individuals[0].vector)\n        super().evaluate(self.to_evaluate)\n", "        n_params = len(self.individuals[0].vector)\n        super().evaluate(self.to_evaluate)\n        super().evaluate_serial(self.to_evaluate)\n")
-M("C14", "grad-children-not-queued", "operators.py", "        self.to_evaluate.append(individual)\n        self.to_evaluate.extend(individual.children)\n\n    def evaluate(self, individuals):\n        for individual", "        self.to_evaluate.append(individual)\n\n    def evaluate(self, individuals):\n        for individual")
+M("C14", "grad-children-not-queued", "operators.py", "        self.to_evaluate.append(individual)\n        self.to_evaluate.extend(individual.children)\n\n    def evaluate(self, individuals):\n        # evaluate the designs first", "        self.to_evaluate.append(individual)\n\n    def evaluate(self, individuals):\n        # evaluate the designs first")
+M("C14", "grad-neighbours-before-evaluation", "operators.py", "        # evaluate the designs first: a failed evaluation replaces the vector, the neighbours must belong to the final one\n        super().evaluate(individuals)\n", "")
+M("C14", "wc-neighbours-before-evaluation", "operators.py", "    def evaluate(self, individuals):\n        super().evaluate(individuals)\n        for individual in individuals:\n            self.add(individual)\n        self.run()\n\n    def evaluate_scalar(self, x):\n        parent_individual", "    def evaluate(self, individuals):\n        for individual in individuals:\n            self.add(individual)\n        self.run()\n\n    def evaluate_scalar(self, x):\n        parent_individual")
 M("C14", "wc-run-in-loop", "operators.py", "        for individual in individuals:\n            self.add(individual)\n        self.run()\n\n    def evaluate_scalar(self, x):\n        parent_individual", "        for individual in individuals:\n            self.add(individual)\n            self.run()\n\n    def evaluate_scalar(self, x):\n        parent_individual")
 # twins
 M("C14", "twin-clear", "operators.py", WC_RESET, "                individual.costs_signed.insert(-1, sum(sensitivity))\n\n        self.individuals = []\n        self.to_evaluate.clear()\n", "H")
